@@ -39,7 +39,11 @@ Lemma signatures :
   call_all_params = ["*funcs"] /\ call_params = ["func"] /\
   outer_params = ["func"; "mp_context"; "initializer"; "collect_logging"] /\
   exited_fields = ["returned"; "raised"; "process"; "process_created_at"; "process_exited_at"] /\
-  exitcode_keys_negated = true.
+  exitcode_keys_negated = true /\
+  rp_methods = ["__init__"; "__repr__"; "_log_created"; "_log_exited"; "_format_time"; "interrupt"; "send_signal";
+                "terminate"; "kill"; "__await__"] /\
+  logging_defaults = [("mp_context", ENone)] /\
+  outer_defaults = [("mp_context", ENone); ("initializer", ENone); ("collect_logging", EBool false)].
 Proof. repeat split; reflexivity. Qed.
 
 (** ================================================================== frames *)
@@ -656,6 +660,44 @@ Proof.
   intros E clog g ini. cbv zeta. unfold start. closed_listener E.
   remember (lout_of E []) as o0 eqn:H0. remember (lout_of E [QSentinel]) as o1 eqn:H1. clear H0 H1.
   split_env E. destruct clog; destruct g; lazy; repeat split; reflexivity.
+Qed.
+
+(** ---- default argument values (regenerated: [outer_defaults], [logging_defaults]): the frame of a call
+    that omits them is computed by evaluating the regenerated default expressions *)
+Fixpoint default_of (p : string) (ds : list (string * hexp)) : option hexp :=
+  match ds with [] => None | (q, e) :: r => if String.eqb p q then Some e else default_of p r end.
+
+Fixpoint call_frame (E : env) (ps : list string) (ds : list (string * hexp)) (given : frame) : option frame :=
+  match ps with
+  | [] => Some []
+  | p :: r =>
+      let v := match lookup p given with
+               | Some v => Some v
+               | None => match default_of p ds with
+                         | Some e => match eval E cf0 e (st0 []) with (RV v, _) => Some v | _ => None end
+                         | None => None
+                         end
+               end in
+      match v, call_frame E r ds given with
+      | Some v, Some f => Some ((p, v) :: f)
+      | _, _ => None
+      end
+  end.
+
+(** `run_in_process(func)`: no context given, no initializer, NO log collection; `MultiprocessingLogging()`:
+    no context given (it then takes mp.get_context()) *)
+Theorem default_call_frames : forall E,
+  call_frame E outer_params outer_defaults [("func", VUserFunc)] = Some (outer_args false VNone VNone) /\
+  call_frame E logging_params logging_defaults [] = Some [("mp_context", VNone)].
+Proof. intros E. split; reflexivity. Qed.
+
+Lemma start_with_defaults : forall E f, call_frame E outer_params outer_defaults [("func", VUserFunc)] = Some f ->
+  fst (run E outer_prog (st0 f)) = CReturn (VHandle (handle_attrs (e_tick E 0))) /\
+  task_frame (snd (run E outer_prog (st0 f))) = run_frame false VNone VNone.
+Proof.
+  intros E f H. destruct (default_call_frames E) as [H1 _]. rewrite H1 in H. inversion H; subst f.
+  pose proof (start_exact E false false VNone) as S. cbv zeta in S. unfold start, ctxv in S.
+  destruct S as (S1 & _ & S3 & _). auto.
 Qed.
 
 (** awaiting the handle: RunningProcess.__await__ on the handle that run_in_process returned *)
